@@ -551,6 +551,27 @@ def main(rep, ws, tier):
                 bx, by, bz = res[4:7]
                 want_y = T.binop('fsub', T.binop('fsub', T.fp_from_value(lt, 1.0), bx, lt), bz, lt)
                 if by is not want_y and not T.equiv(by, want_y): return 'barycentric.y is not 1 - x - z', None
+                # the front-facing flag is documented as  (v2-v1)x(v1-v0) . dir < 0 : on this case (a resolution of every
+                # comparison) the flag is a constant; it must be the truth value the case gives to that sign test
+                fr = res[7]
+                while fr.op in ('zext', 'trunc') and fr.args: fr = fr.args[0]
+                if fr.op != 'const': return 'the front-facing flag is not decided by the comparisons of the path (%s)' % T.show(fr, 3)[:100], None
+                ndot = g.dot(nrm, d)
+                l2 = g.dot(nrm, nrm); Ln = ctx.rdiv(ctx.sqrt_poly(l2[0]), ctx.sqrt_poly(l2[1]))
+                truth = None
+                for c_, v_ in asg.items():
+                    if not (c_.op == 'fcmp' and c_.attr in ('olt', 'ole') and any(z.op == 'const' and T.const_value(z) == 0 for z in c_.args)): continue
+                    zi = 0 if (c_.args[0].op == 'const' and T.const_value(c_.args[0]) == 0) else 1
+                    try: Xr = ctx.rat(c_.args[1 - zi])
+                    except P.NotPoly: continue
+                    for kf in ((P.pconst(1), ONE), Ln):
+                        for sg_ in (1, -1):
+                            if ctx.requal(ctx.rmul(Xr, kf), ndot if sg_ == 1 else (P.pneg(ndot[0]), ndot[1])):
+                                # c_: (X < 0) if zi == 1 else (0 < X), value v_;  X = sg_ * ndot / kf
+                                x_neg = v_ if zi == 1 else (not v_)          # generic point: X != 0
+                                truth = x_neg if sg_ == 1 else (not x_neg)
+                if truth is None: return 'the front-facing flag does not depend on the sign of (v2-v1)x(v1-v0) . dir', None
+                if bool(fr.attr[1] & 1) != truth: return 'the front-facing flag is %d where (v2-v1)x(v1-v0) . dir < 0 is %s' % (fr.attr[1] & 1, truth), None
                 if tier != 'quick' or n == 1:
                     # modular (quick: first accepting case only): for EVERY point q = v0 + al*(v1-v0) + be*(v2-v0) of the triangle's plane put in place of the hit
                     # point, the formulas give barycentric.z = be and barycentric.x = 1 - al - be; with the hit point in the
